@@ -398,7 +398,20 @@ while time.time() - t0 < 40:
     time.sleep(0.1)
 print('REFRESHED', refreshed, flush=True)
 mode = sys.argv[1]
-if mode == 'release':
+if mode in ('remove-release', 'remove-fail'):
+    # the lock file is removed by somebody else (jug cleanup) before the owner lets go: the owner's release()/fail() still ends the helper at once
+    os.unlink(lk.fullname)
+    try:
+        lk.release() if mode == 'remove-release' else lk.fail()
+    except Exception as e:
+        print('RELEASE_RAISED', type(e).__name__, flush=True)
+    time.sleep(0.7)          # far less than the (scaled) time to the helper's next refresh, which was a moment ago
+    try:
+        alive = os.path.exists('/proc/%%d' %% pid) and 'Z' not in open('/proc/%%d/stat' %% pid).read().split()[2]
+    except OSError:
+        alive = False
+    print('HELPER_ALIVE_AFTER_RELEASE', alive, flush=True)
+elif mode == 'release':
     lk.release()
     t1 = time.time()
     alive = True
@@ -414,7 +427,7 @@ else:
     os.kill(os.getpid(), 9)
 ''' % d
         env = dict(os.environ, PYTHONPATH=d + os.pathsep + core.REPO + os.pathsep + os.environ.get('PYTHONPATH', ''))
-        for mode in (['release'] if quick else ['release', 'die']):
+        for mode in (['release', 'remove-release', 'remove-fail'] if quick else ['release', 'remove-release', 'remove-fail', 'die']):
             p = subprocess.run([sys.executable, '-c', code, mode], stdout=subprocess.PIPE, stderr=subprocess.PIPE, text=True, env=env, timeout=300, cwd=d)
             out = p.stdout
             run.case(('real-helper', mode), nontrivial=True)
@@ -424,6 +437,9 @@ else:
                 run.fail('helper-does-not-refresh', 'real helper process started by the real lock (relative jug directory): lock not refreshed within 1.5 refresh periods: %s %s' % (out.strip(), p.stderr[-300:]), rp)
             if mode == 'release' and 'HELPER_ALIVE_AFTER_RELEASE False' not in out:
                 run.fail('helper-survives-release', 'the helper process is still alive after release(): %s' % out.strip(), rp)
+            if mode.startswith('remove-') and 'HELPER_ALIVE_AFTER_RELEASE False' not in out:
+                run.fail('helper-survives-release', 'the lock file was removed by somebody else, then the owner called %s(): the helper process is still alive afterwards (it would go on refreshing a lock '
+                         'of the same name taken by another worker): %s %s' % (mode.split('-')[1], out.strip(), p.stderr[-300:]), rp)
             if mode == 'die':
                 import re
                 m = re.search(r'HELPERPID (\d+)', out)
@@ -492,7 +508,14 @@ def dead_worker_cleanup(run, expiry, mode='failed-only'):
         lockdir = os.path.join(d, 'ka.jugdata', 'locks')
         locks = os.listdir(lockdir)
         p.send_signal(signal.SIGKILL)
-        p.communicate()
+        try:
+            # the helper holds the worker's output pipe: end of file = the helper has ended too (it looks for its parent every few seconds)
+            p.communicate(timeout=40)
+        except subprocess.TimeoutExpired:
+            run.fail('helper-survives-worker', 'the keep-alive helper of a worker that was killed (SIGKILL) inside a task is still running 40 s later (it checks for its parent every '
+                     'few seconds and must end when the worker has disappeared); lock files: %s' % locks, rp)
+            subprocess.run(['pkill', '-f', os.path.join(d, 'ka.jugdata')], stdout=subprocess.DEVNULL, stderr=subprocess.DEVNULL)
+            p.communicate()
         os.unlink(os.path.join(d, 'block'))
         run.case(('dead-worker-cleanup',), nontrivial=True)
         run.count('dead_worker_cleanup_runs')
